@@ -24,6 +24,7 @@ type C02Flow struct {
 	ID     string `json:"id"`
 	N      int    `json:"n"`
 	Repeat bool   `json:"repeat,omitempty"` // CSS repeats it (table header / footer group)
+	Fixed  bool   `json:"fixed,omitempty"`  // content of a fixed-position box: once on every page
 	// Ctx: for each word, the outermost fragmentation context it sits in (plain, multicol, grid, flex,
 	// table, float, abspos, inline-block, footnote)
 	Ctx []string `json:"ctx"`
@@ -43,6 +44,7 @@ type c02Gen struct {
 	ctx   []string
 	// inRepeat: inside a table header / footer group, whose content CSS repeats
 	inRepeat bool
+	nFixed   int
 }
 
 func (g *c02Gen) push(c string) func() {
@@ -262,6 +264,25 @@ func (g *c02Gen) block(f *C02Flow, budget *int) string {
 		defer g.push("float")()
 		ff := g.newFlow(false)
 		return fmt.Sprintf(`<div style="float:%s;width:%dpx;%s">%s</div>`, rapid.SampledFrom([]string{"left", "right"}).Draw(t, "fl"), rapid.SampledFrom([]int{20, 30, 50, 80}).Draw(t, "flw"), g.boxStyle(), g.inline(ff, rapid.SampledFrom([]int{2, 6, 20}).Draw(t, "fllen")))
+	case kind < 18 && len(g.ctx) == 0 && !g.inRepeat && g.nFixed < 2 && rapid.IntRange(0, 2).Draw(t, "fixed") == 0:
+		// a fixed-position box, sometimes holding another one: each is drawn once on every page
+		g.nFixed++
+		g.feat["fixed"] = true
+		defer g.push("fixed")()
+		ff := g.newFlow(false)
+		ff.Fixed = true
+		words := g.word(ff)
+		if rapid.Bool().Draw(t, "fixed2") {
+			words += " " + g.word(ff)
+		}
+		inner := ""
+		if rapid.IntRange(0, 2).Draw(t, "nested-fixed") == 0 {
+			nf := g.newFlow(false)
+			nf.Fixed = true
+			inner = fmt.Sprintf(`<div style="position:fixed;%s;width:30px">%s</div>`, rapid.SampledFrom([]string{"bottom:0;right:0", "top:0;right:0", "bottom:0;left:0"}).Draw(t, "fixedpos2"), g.word(nf))
+			g.feat["nested-fixed"] = true
+		}
+		return fmt.Sprintf(`<div style="position:fixed;%s;width:40px">%s%s</div>`, rapid.SampledFrom([]string{"top:0;left:0", "bottom:0;left:0", "top:10px;right:0"}).Draw(t, "fixedpos"), words, inner)
 	case kind < 18: // absolutely positioned
 		g.depth++
 		defer func() { g.depth-- }()
@@ -371,7 +392,7 @@ func c02Check(ci interface{}) Verdict {
 		laid = append(laid, texts)
 	}
 	for _, f := range c.Flows {
-		if len(pagesOf[f.ID]) > 1 && !f.Repeat {
+		if len(pagesOf[f.ID]) > 1 && !f.Repeat && !f.Fixed {
 			splitPara = true
 		}
 	}
@@ -392,6 +413,28 @@ func c02Check(ci interface{}) Verdict {
 		kind := "flow"
 		if f.ID != "A" {
 			kind = "sub-flow"
+		}
+		if f.Fixed {
+			// one complete run 0..n-1 on every page
+			fx := ""
+			if strings.Contains(c.HTML, "float:footnote") {
+				fx = ":with-footnote"
+			}
+			if len(got) != f.N*len(r.Pages) {
+				return Viol("fixed:count"+fx, "the %d words of the fixed-position flow %s appear %d times in total over %d pages (once per page expected): %v\n%s", f.N, f.ID, len(got), len(r.Pages), got, doc())
+			}
+			for i, ix := range got {
+				if ix != i%f.N {
+					return Viol("fixed:order"+fx, "fixed-position flow %s is laid out as %v\n%s", f.ID, got, doc())
+				}
+			}
+			if len(pagesOf[f.ID]) != len(r.Pages) {
+				return Viol("fixed:pages"+fx, "fixed-position flow %s appears on pages %v of %d\n%s", f.ID, pagesOf[f.ID], len(r.Pages), doc())
+			}
+			if len(r.Pages) > 1 {
+				labels["fixed-repeated"] = true
+			}
+			continue
 		}
 		if f.Repeat {
 			// one or more complete runs 0..n-1, at most one per page
@@ -494,6 +537,6 @@ func init() {
 			"Oracle (layout level): walking the pages in order and each page's box tree in document order, the indices met for each flow must be exactly 0..n-1 (nothing lost, duplicated or reordered); header/footer flows must be 1..#pages complete runs. Oracle (draw level): per page, the multiset of DrawText texts equals the multiset of the texts of the page's visible, non-blank text boxes (go-text: equal counts, as that engine leaves the text of a drawing empty). " +
 			"Non-trivial: >= 2 pages and at least one flow laid out over more than one page.",
 		ImportantLabels: []string{"pages>1", "flow-over-pages", "table", "float", "abspos", "inline-block", "footnote", "columns", "list", "orphans-widows", "forced-or-avoided-break", "break-inside-avoid", "group-repeated", "engine:gotext", "flex", "grid"},
-		Assumptions:     []string{"crashes and hangs belong to C01 and are excluded", "fixed-position and running elements (the other CSS-defined repetitions) are not generated"},
+		Assumptions:     []string{"crashes and hangs belong to C01 and are excluded", "running elements (another CSS-defined repetition) are not generated"},
 	})
 }
